@@ -524,6 +524,6 @@ func init() {
 			"oracle: error is *ErrArgumentUnsatisfied; Args contains every hopeless parameter, only declared parameters of the target, none MUST-derivable; Inputs equals the supplied values as a multiset of (name,type,subtype); " +
 			"Converters contains every *Func given through ConverterFunc and a Func of the same Go type for each raw Converter; Error() mentions type (and name) of every missing argument. non-trivial = the target has >= 2 parameters or the case has converters",
 		Assumptions: []string{"hopeless = no supplied value and no converter output has the parameter's type, implements it or is MAY-related to it"},
-		Run:   runC13,
+		Run:         runC13,
 	})
 }
